@@ -444,6 +444,11 @@ def parse_sidecar(path):
     for ln, line in enumerate(open(path).read().split("\n"), 1):
         if line.startswith("@@"):
             continue  # sidecar comment
+        if line.startswith("@include "):
+            inc = os.path.join(os.path.dirname(path), line.split(None, 1)[1].strip())
+            ds += parse_sidecar(inc)
+            cur = None
+            continue
         if line.startswith("@"):
             parts = line[1:].split(None, 1)
             cur = Directive(parts[0], parts[1].strip() if len(parts) > 1 else "", ln)
@@ -491,6 +496,12 @@ IDIOMS = [
     ("N7.range_to_incl_next_back", "$m.range(..=$_k).next_back()", "btree_pred_incl(&$m, $_k)"),
     ("N7.range_from_next", "$m.range($_k..).next()", "btree_succ_ge(&$m, $_k)"),
     ("N7.last_key_value", "$m.last_key_value()", "btree_last(&$m)"),
+    ("N7.u64_to_le", "($_x as u64).to_le_bytes()", "u64_to_le_bytes($_x as u64)"),
+    ("N7.u32_to_le", "($_x as u32).to_le_bytes()", "u32_to_le_bytes($_x as u32)"),
+    ("N7.u64_from_le", "u64::from_le_bytes($_e.try_into().unwrap())", "u64_from_le_slice(&$_e)"),
+    ("N7.u32_from_le", "u32::from_le_bytes($_e.try_into().unwrap())", "u32_from_le_slice(&$_e)"),
+    ("N8.format", "format!($_a)", "StrH::msg()"),
+    ("N3.wild_closure_param", "|_| $_e)", "|_e| $_e)"),
 ]
 
 
@@ -935,8 +946,9 @@ def strip_attrs(txt):
         s = line.strip()
         if s.startswith("///") or s.startswith("//!"):
             continue
-        if re.match(r"#\[(inline|must_use|derive|allow|doc|cfg_attr|repr|cold|track_caller)\b.*\]$", s):
+        if re.match(r"#\[(inline|must_use|derive|allow|doc|cfg_attr|repr|cold|track_caller|error)\b.*\]$", s):
             continue
+        line = re.sub(r"#\[(from|source)\]\s*", "", line)
         out.append(line)
     return "\n".join(out)
 
@@ -1069,7 +1081,7 @@ def emit_fn(em, info, unit, cur_source, blk, typemap):
     for s in subs:
         if s.name == "hint":
             a, lab = split_label(s.args)
-            mm = re.match(r"(entry|end|before|after|afterblock|at)\b\s*(?:#(\d+)\s*)?(.*)$", a, re.S)
+            mm = re.match(r"(entry|end|tail|before|after|afterblock|at)\b\s*(?:#(\d+)\s*)?(.*)$", a, re.S)
             if not mm:
                 raise VxError(f"unit.vx:{s.lineno}: bad @hint `{a}`")
             pos_kind, nth, anchor = mm.group(1), int(mm.group(2) or 1), mm.group(3).strip().strip("`")
@@ -1081,6 +1093,8 @@ def emit_fn(em, info, unit, cur_source, blk, typemap):
             elif pos_kind == "end":
                 bo_ = body_open_of(ft)
                 pos = match_close(ft.mask, bo_)
+            elif pos_kind == "tail":
+                pos = tail_start(ft)
             else:
                 a0, a1 = ft.find_anchor(anchor, nth)
                 if pos_kind == "before":
@@ -1168,7 +1182,7 @@ def emit_fn(em, info, unit, cur_source, blk, typemap):
     last_line = len(em.lines)
     for ln in range(first_line, last_line + 1):
         l = em.lines[ln - 1]
-        if "/*FB*/" in l:
+        if "/*FB*/" in l and "external_body" not in fnattrs:
             info["vac_points"].append((ln, f"{fnpath}::entry"))
         for mm in re.finditer(r"/\*LB:(\d+)\*/", l):
             info["vac_points"].append((ln, f"{fnpath}::loop{mm.group(1)}"))
@@ -1180,7 +1194,9 @@ def emit_fn(em, info, unit, cur_source, blk, typemap):
         n_invs += len(split_clauses(mi.group(2)))
     n_ens = sum(1 for c in info["clauses"] if c["fn"] == fnpath and c["kind"] == "ensures")
     n_req = sum(1 for c in info["clauses"] if c["fn"] == fnpath and c["kind"] == "requires")
+    trusted_fn = "external_body" in fnattrs
     info["functions"].append({
+        "trusted": trusted_fn,
         "fn": fnpath, "source": cur_source, "line": src.line_of(it.start), "label": fn_label,
         "emitted_first": first_line, "emitted_last": last_line,
         "ensures": n_ens, "requires": n_req, "loop_invariant_clauses": n_invs, "loops": len(loops),
@@ -1188,8 +1204,10 @@ def emit_fn(em, info, unit, cur_source, blk, typemap):
         # obligations: each ensures clause, each invariant clause twice (entry + preservation),
         # each assert / assert! / unreachable!, one termination obligation per loop, plus one implicit
         # safety obligation per function (overflow / index / callee preconditions: one Verus query)
-        "obligations": n_ens + 2 * n_invs + n_asserts + len(loops) + 1,
+        "obligations": 0 if trusted_fn else n_ens + 2 * n_invs + n_asserts + len(loops) + 1,
     })
+    if trusted_fn:
+        info["assumptions"].append({"origin": f"{unit}/unit.vx (fn {fnpath})", "line": d.lineno, "kind": "external_body", "text": f"real body of {fnpath} kept but trusted against its sidecar contract"})
     info["rewrites"] += ft.log
 
 
@@ -1212,6 +1230,25 @@ def body_open_of(ft):
             return j
         j += 1
     raise VxError(f"{ft.fnpath}: no body")
+
+
+def tail_start(ft):
+    """start of the tail expression of the fn body (or the body end when there is none)."""
+    bo = body_open_of(ft)
+    bc = match_close(ft.mask, bo)
+    pos = bo + 1
+    while True:
+        m = ft.mask
+        while pos < bc and m[pos].isspace():
+            pos += 1
+        if pos >= bc:
+            return bc
+        e = stmt_end(ft, pos)
+        if e >= bc or not ft.mask[e:bc].strip():
+            if ft.mask[:e].rstrip().endswith(";"):
+                return bc
+            return ft.text.rfind("\n", 0, pos) + 1
+        pos = e
 
 
 def stmt_end(ft, pos):
